@@ -204,6 +204,11 @@ class SimExecutor(Executor):
         if p1 == p2:
             raise RuntimeError("two-qubit gate on one qubit")
         mat = {"cnot": qsim.CNOT, "cphase": qsim.CPHASE, "mov": qsim.SWAP}[instr.mnemonic]
+        if instr.mnemonic == "mov":
+            # mov transfers the state of its first operand onto its second, which must be a freshly initialised qubit (that is
+            # all the instruction promises, and all its NV expansion does - C07); anything else is reported as a fault
+            if not self.qs.is_product(p2) or self.qs.probabilities(p2)[0] < 1 - 1e-9:
+                raise RuntimeError("mov onto a qubit that is not in |0> (the target of a state transfer must be freshly initialised)")
         self._just_reserved -= {p1, p2}
         self.qs.apply(mat, p1, p2)
         self.gate_trace.append((instr.mnemonic, address1, address2))
